@@ -145,4 +145,17 @@ theorem softfork_monotone_nulldummy (fl : Flags) (chk : Checker) (scriptSig scri
     verifyScript { fl with nulldummy := false } chk scriptSig scriptPubKey wit = .ok () :=
   Lemmas.verifyScript_mono Lemmas.nulldummy_tightening fl chk scriptSig scriptPubKey wit () h
 
+/-- Strict DER signatures (BIP66) are a soft fork of the script semantics: whatever verifies with DERSIG
+verifies without it (same checker, i.e. Core's lax parser feeds the curve equation in both cases). -/
+theorem softfork_monotone_dersig (fl : Flags) (chk : Checker) (scriptSig scriptPubKey : Bytes)
+    (wit : List Bytes) (h : verifyScript { fl with dersig := true } chk scriptSig scriptPubKey wit = .ok ()) :
+    verifyScript { fl with dersig := false } chk scriptSig scriptPubKey wit = .ok () :=
+  Lemmas.verifyScript_mono Lemmas.dersig_tightening fl chk scriptSig scriptPubKey wit () h
+
+/-- the hypotheses of the monotonicity theorems are satisfiable: a spend that verifies under all four flags -/
+example : ∃ chk : Checker,
+    verifyScript { cltv := true, csv := true, nulldummy := true, dersig := true } chk [0x51] [0x51] [] = .ok () :=
+  ⟨⟨fun _ _ _ _ => .ok false, fun _ _ _ _ => .ok (), fun _ => false, fun _ => false, fun _ _ _ _ => .ok false⟩,
+   by rfl⟩
+
 end BV.C06
